@@ -9,15 +9,20 @@ COMMON_TRUSTED = [
 ]
 import os as _os
 def pins_of(pid):
-    """pins listed in tools/pinlist.txt under the comment section starting with '# <pid> '"""
+    """pins listed in tools/pinlist.txt under the comment section starting with '# <pid>' (a comment '# Cxx...' at the end
+    of a pin line also starts a section, including that line)"""
+    import re
     out, cur = [], None
     for line in open(_os.path.join(_os.path.dirname(_os.path.abspath(__file__)), 'pinlist.txt')):
-        line = line.strip()
-        if line.startswith('#'):
-            cur = line[1:].split()[0] if len(line) > 1 and line[1:].split() else None
-            continue
-        if line and cur == pid:
-            m, q = line.split()
+        body, _, comment = line.partition('#')
+        toks = comment.split()
+        if toks and re.match(r'^C\d\d', toks[0]):
+            cur = toks[0][:3]
+        elif toks and not body.strip():
+            cur = None
+        body = body.strip()
+        if body and cur == pid:
+            m, q = body.split()
             if f'{m}.{q}' not in out:
                 out.append(f'{m}.{q}')
     return out
@@ -78,4 +83,51 @@ PROPS = {
                          'hand model of segyio geometry inference (segyio_geometry) compared with real segyio on every sample'],
                 assumptions=['bitwise equality of volume-style reads with the codec image of the zero-filled grid rests on the oracle plus C01/C02 (theorems stop at what each buffer cell holds)',
                              'heuristic detection: fields equal in first and last trace are stored as constants (documented limitation, C04)']),
+    'C10': dict(gen_targets=['Cropping', 'Reader', 'loader.SgzLoader', 'Utils', 'Version'], pins=pins_of('C10'), harness='cropping.py',
+                trusted=['tools/genx_cropping.py (fail-closed extraction of every test, bound correction, header patch, unit count, read_chunk_range argument, footer window of cropping.py)',
+                         'hand model coq/Model/Cropper.v: struct.pack ranges, buffer length of read_chunk_range, numpy reshape/slice/flatten indexing, coord_to_index on an arithmetic axis'],
+                assumptions=['decoded floats abstract (unit-locality)', 'axes arithmetic int32 without overflow; len(axis) = stated count']),
+    'C15': dict(gen_targets=['Caches'], pins=pins_of('C15'), harness='history.py',
+                trusted=['tools/genx_caches.py (fail-closed extraction of the lru_cache tables, cache keys, clear_cache lists, attribute analysis of cached bodies, lazy-cache users)',
+                         'hand semantics of functools.lru_cache (LRU order, keyed on all arguments incl. self) validated by hit/miss counting against the real caches'],
+                assumptions=['cached loader bodies are functions of (file, arguments): guarded by the generator attribute analysis, the oracle and pins, not proved',
+                             'blob readers / concurrency not covered; caller-side mutation of returned views outside the statement']),
+    'C16': dict(gen_targets=['Pipeline'], pins=[], harness='pipeline.py',
+                trusted=['tools/genx_pipeline.py (fail-closed extraction of the operation order of compressor, writer, run_conversion_loop and the callers)',
+                         'hand semantics of CPython queue.Queue / threading (bounded FIFO, unfinished_tasks, task_done, join) in coq/Model/Pipeline.v, validated by replaying model schedules on the real code under a cooperative scheduler'],
+                assumptions=['granularity: one step = one queue/file operation of one thread; OS-level timing inside such an operation is not modelled',
+                             'footer arrays and hash patch after the joins: checked structurally by the generator and behaviourally by the oracle']),
+    'C19': dict(gen_targets=['Config'], pins=['conversion_utils.make_header'], harness='config.py',
+                trusted=['tools/genx_config.py (fail-closed translation of define_blockshape*, order check of the run() methods)',
+                         'coq/Lib/PyConfig.v: Python numbers as exact rationals with explicit ZeroDivisionError; agreement of exact Q with CPython binary64 checked on every correspondence case'],
+                assumptions=['"raises before creating the output" is the generator AST order check plus the file oracle, not a theorem about conversion.py']),
+    'C06': dict(gen_targets=['Export'] + READER_TARGETS, pins=pins_of('C06'), harness='export.py',
+                trusted=['tools/genx_export.py (fail-closed extraction of convert_to_segy / write_segy / regenerate_trace_header: spec fields, operation order, index expressions, format-code bytes, header overrides)',
+                         'hand model of segyio (create, capacity, bulk put, file layout, trace-0 offset on reopen) in coq/Model/Export.v, checked by correspondence'],
+                assumptions=['segyio numerics: IEEE exact, IBM within relative 2^-20: a property of segyio C code, validated on every sample, not proved',
+                             'header preservation (C04) and get_trace / gen_trace_header are abstract parameters here']),
+    'C11': dict(gen_targets=['Window'], pins=pins_of('C11'), harness='window.py',
+                trusted=['tools/genx_window.py (fail-closed extraction of window acceptance, Geometry3d ranges, header allocation, make_header fields, io_thread_func / read_line index arithmetic)',
+                         'hand model coq/Model/Window.v of the converter control flow around the generated arithmetic'],
+                assumptions=['traces abstract; compression and layout are C01', 'self-test outcome of the reduced-I/O reader is an input boolean',
+                             'one-line windows: closed-form theorem + semantic oracle (the sub-cube alone would be detected as 2D)']),
+    'C17': dict(gen_targets=['Faults', 'Reader'], pins=pins_of('C17'), harness='faults.py',
+                trusted=['tools/genx_faults.py (fail-closed extraction of the length-check guard, the wiring of both backends through it, every read_range call site, per fan-out: futures collected, buffer length, task count, slots)',
+                         'hand model coq/Model/Faults.v: backend delivers Full/Short/Fail, slice assignment as splice, each submitted task runs once and its exception is re-raised by result()'],
+                assumptions=['real timing of the 20 worker threads is represented by an arbitrary permutation of atomic slice assignments (GIL)',
+                             'two arithmetic equations on the opaque int(.. * rate) terms of the NxNx4 fan-out are checked per file by vm_compute, not proved from well-formedness']),
+    'C18': dict(gen_targets=['Faults', 'Reader'], pins=pins_of('C17'), harness='partial.py',
+                trusted=['tools/genx_faults.py (write order of both converters with patch offsets; every headerbytes slice of read.py with its user)',
+                         'hand model coq/Model/Faults.v: write history, crash = prefix with partial last write, header-word table decode'],
+                assumptions=['a crash point is a prefix of the program-order write sequence; OS write-back below Python is not modelled']),
+    'C05': dict(gen_targets=['Geometry', 'Reader', 'Version', 'Utils'], pins=pins_of('C05') + ['utils.Geometry3d.__init__'], harness='geometry.py',
+                allowed_axioms=['PrimFloat.abs', 'PrimFloat.add', 'PrimFloat.classify', 'PrimFloat.div', 'PrimFloat.eqb', 'PrimFloat.float',
+                                'PrimFloat.frshiftexp', 'PrimFloat.mul', 'PrimFloat.normfr_mantissa', 'PrimFloat.of_uint63', 'PrimFloat.opp', 'PrimFloat.sub',
+                                'PrimInt63.eqb', 'PrimInt63.int', 'PrimInt63.land', 'PrimInt63.lor', 'PrimInt63.lsl', 'PrimInt63.lsr', 'PrimInt63.sub',
+                                'abs', 'add', 'classify', 'div', 'eqb', 'float', 'frshiftexp', 'mul', 'normfr_mantissa', 'of_uint63', 'opp', 'sub', 'int', 'land', 'lor', 'lsl', 'lsr'],
+                trusted=['tools/genx_geometry.py (fail-closed extraction of the geometry fields of make_header, gen_coord_list, _parse_coordinates, the structured / 2D flags)',
+                         'Coq primitive floats (PrimFloat) and 63-bit integers (Uint63) as the model of binary64: kernel primitives listed by Print Assumptions, no axiom declared; vm_compute evaluates them',
+                         'hand semantics of struct pack/unpack, numpy intc wrap, segyio sample formula arange(n)*(dt/1000.0)+t0'],
+                assumptions=['sample axis: proved on the finite domain zs_dom written in each statement (all intervals 1..65535 us at start 0; start times -32768..32767 ms for interval 1001 us; ...); other float combinations are sampled by the harness',
+                             'D26 (NumPy route: Python list axes raise AttributeError before anything is written; fractional start time truncated) recorded as a note']),
 }
